@@ -27,14 +27,18 @@ def sh(cmd, cwd, timeout, env=ENV):
     except subprocess.TimeoutExpired:
         return 124, "TIMEOUT"
 
+skip01 = False
+
 def main():
     args = sys.argv[1:]
+    global skip01
     jobs, only = 8, None
     files = []
     while args:
         a = args.pop(0)
         if a == "-j": jobs = int(args.pop(0))
         elif a == "--props": only = set(args.pop(0).split(","))
+        elif a == "--no-c01": skip01 = True
         else: files.append(a)
     anchors = {}
     for l in open("/verif/properties.jsonl"):
@@ -77,7 +81,7 @@ def main():
                     if status != "nocompile":
                         for p in anchors.get(f, []):
                             if only and p not in only: continue
-                            if p == "C01" and not only and status != "killed-panic":
+                            if p == "C01" and (skip01 or (not only and status != "killed-panic")):
                                 continue
                             rc, log = sh("./bin/gsa check %s --tier quick" % p, "/verif", 900, dict(ENV, GSA_REPO=d))
                             rule = ""
